@@ -978,6 +978,11 @@ class CallMixin:
                 key = ("str." + name,) + tuple(_deep(a) for a in args)
                 self.run.atom_info[("strop",) + key] = list(args)
                 return SStr([Frag("OP", key, s, ())])
+            if name == "translate" and len(args) == 1 and isinstance(args[0], dict) and all(isinstance(k_, int) for k_ in args[0]) \
+                    and all(v_ is None or isinstance(v_, (str, int)) for v_ in args[0].values()):
+                # a per-character mapping: every character with an entry is replaced by its image, all at once
+                pairs = tuple(sorted((chr(k_), "" if v_ is None else (chr(v_) if isinstance(v_, int) else v_)) for k_, v_ in args[0].items()))
+                return SStr([Frag("OP", ("str.translate", pairs), s, ())])
             raise self.unmodelled(f"string method {name}", node)
         # ---- super() of a builtin base ---------------------------------------------------
         if isinstance(recv, _Base):
@@ -1111,6 +1116,11 @@ class CallMixin:
                 return self.add(self.as_sstr(args[0]) or args[0], args[1], node)  # str.__add__(a, b)
             if name == "__new__":
                 return SNew(recv.name)
+            if name == "maketrans" and recv.py is str and args and all(isinstance(a_, (dict, str)) for a_ in args) and not kwargs:
+                try:
+                    return str.maketrans(*args)        # a translation table over constants is a constant
+                except Exception:
+                    raise self.unmodelled("str.maketrans on these constants", node)
             if name == "fromkeys" and recv.py is dict:
                 o = SOpaque(("dict.fromkeys", short(args[0])), {"DICT"})
                 o.__dict__["of"] = args[0]
@@ -1161,6 +1171,11 @@ class CallMixin:
                         dstar: Optional[List[Any]] = None) -> Any:
         run = self.run
         kinds: FrozenSet[str]
+        if isinstance(recv, SOpaque) and "match_text" in recv.__dict__:
+            # a regular-expression match of known text (used to read off what a replacement callback does per character)
+            if name == "group" and not kwargs and (not args or args == [0]):
+                return recv.__dict__["match_text"]
+            raise self.unmodelled(f"match.{name}{tuple(short(a_) for a_ in args)} in a replacement callback", node)
         if isinstance(recv, SNew):
             k0 = self.U.kind_of_class(recv.cls) if isinstance(recv.cls, ClassInfo) else None
             kinds = frozenset({k0 or "OTHER"})
